@@ -5,6 +5,8 @@ Tie (DESIGN §6 C12): the REAL engine classes run
     imposed from inside the engines' own sleep()/poll() calls (no timing),
   * TurtleMDEngine / ASEEngine natively (free flight: exact dyadic arithmetic; ASE also harmonic),
   * a minimal plug-in EngineBase subclass (exhaustive add_to_path / propagate check),
+(extension pass: also EngineBase.propagate's wrapper, execute_command, calculate_order, snapshot_to_system and the
+whole-propagate compositions of Model/EnginePropagate.lean — ops propsetup, exec, calcorder, snap, propinproc, propgmx, cp2ktraj)
 and the recorded path (order values, (file, index), vel_rev), the order parameter recomputed
 HERE from the referenced file's own frame (own coordinates, own box, own velocity sign), the
 child process after return and the raised exception class are compared with
@@ -233,6 +235,10 @@ def _cp2k_engine(sub):
     if not os.path.isdir(inp):
         os.mkdir(inp)
         shutil.copy("/repo/examples/cp2k/H2/cp2k_input/cp2k.inp", inp)
+        # a template that was produced from a restart (root section &EXT_RESTART): write_for_run_vel must remove it,
+        # otherwise CP2K would start from that restart file instead of the phase point
+        with open(os.path.join(inp, "cp2k.inp"), "a") as fh:
+            fh.write("\n&EXT_RESTART\n  RESTART_FILE_NAME old-1.restart\n&END EXT_RESTART\n")
         with open(os.path.join(inp, "initial.xyz"), "w") as fh:
             fh.write("2\n# Box: 30.0 30.0 30.0\nH 0.0 0.0 0.0 0.0 0.0 0.0\nH 1.0 0.0 0.0 0.0 0.0 0.0\n")
     eng = cp.CP2KEngine(ctl.fake_cmd("fake_cp2k.py"), inp, 0.5, sub, 300, sleep=0.001)
@@ -390,6 +396,9 @@ def _run_ext_in(case, work):
                     rec.append(None)
         obs["recomputed"] = rec
         obs["traj_exists"] = bool(traj_name and os.path.exists(traj_name))
+        if eng_name == "cp2k":
+            # the WHOLE file the engine wrote itself (cp2k.py:935), not only the frames the path refers to
+            obs["trajfile"] = [list(x) for x in parse_xyz7(traj_name)] if obs["traj_exists"] else []
         # ------- what the program was started with
         seen = os.path.join(work, "fake_seen.txt")
         obs["seen"] = open(seen).read().strip() if os.path.exists(seen) else ""
@@ -405,6 +414,12 @@ def _run_ext_in(case, work):
             pick = r if want_rev else [f for f in cand if not f.startswith("r_")]
             pick.sort(key=lambda f: os.path.getmtime(os.path.join(work, f)), reverse=True)   # newest: this propagation's
             startfile = os.path.join(work, pick[0]) if pick else None
+            # what the PROGRAM was told (run.inp as read by fake cp2k): COORD_FILE_NAME, and a surviving &EXT_RESTART
+            for tok in obs["seen"].split():
+                if tok.startswith("coord=") and tok != "coord=None":
+                    startfile = os.path.join(work, tok.split("=", 1)[1])
+                if tok == "ext_restart=1":
+                    obs["ext_restart"] = True
         if startfile and os.path.exists(startfile):
             try:
                 st = parse_lammpstrj(startfile) if eng_name == "lammps" else parse_xyz7(startfile)
@@ -563,6 +578,16 @@ def run_inproc(case):
             ens_before = copy.deepcopy(ens)
             start_order = system.order
             o = {"raised": "ok"}
+            calls = []
+            orig = {n: getattr(eng, n) for n in ("_extract_frame", "_reverse_velocities", "_copyfile")}
+
+            def spy(nm, fn):
+                def f(*a):
+                    calls.append([nm] + [os.path.basename(x) if isinstance(x, str) else x for x in a])
+                    return fn(*a)
+                return f
+            for nm, fn in orig.items():
+                setattr(eng, nm, spy(nm, fn))
             try:
                 ok, status = eng.propagate(path, ens, system, reverse=rev)
                 o["success"] = bool(ok)
@@ -570,6 +595,11 @@ def run_inproc(case):
             except Exception as e:  # noqa: BLE001
                 o["raised"] = err_kind(e)
                 o["exc"] = f"{type(e).__name__}: {str(e)[:200]}"
+            finally:
+                for nm in orig:
+                    delattr(eng, nm)
+            o["calls"] = calls
+            o["sys_after"] = [os.path.basename(system.config[0]), system.config[1], bool(system.vel_rev)]
             ents, rec = [], []
             fn = None
             for pp in path.phasepoints:
@@ -829,6 +859,10 @@ def _plugin_cls():
             return (np.array([[0.0, 0, 0], [d, 0, 0]]), np.array([[0.0, 0, 0], [v, 0, 0]]),
                     np.array([1024.0, 1024.0, 1024.0]), None)
 
+        def _copyfile(self, source, dest):
+            self.calls.append(("copy", os.path.basename(source), os.path.basename(dest)))
+            shutil.copyfile(source, dest)
+
         def _reverse_velocities(self, filename, outfile):
             d, v = self._read(filename)
             self.calls.append(("reverse", os.path.basename(filename)))
@@ -881,19 +915,24 @@ def run_plugin(case):
         eng.order_function = _probe_order()
         eng.exe_dir = work
         src = os.path.join(work, "source.txt")
+        if case.get("same_file"):
+            # config = (exe_dir/{prefix}_conf.txt, None): the file dump_config would write IS the source → no copy
+            from infretis.classes.engines.enginebase import counter
+            src = os.path.join(work, f"001_{os.getpid()}_{getattr(counter, 'count', -1) + 1}_conf.txt")
         k = case.get("start_idx", 0)
         with open(src, "w") as fh:
             for j in range(k):
                 fh.write(f"{-100.0 - j!r} 77.0\n")      # decoy frames before the start point
             fh.write(f"{case['d0']!r} {case['v0']!r}\n")
         system = System()
-        system.config = (src, k)
+        system.config = (src, None) if (case.get("cfg_none") or case.get("same_file")) else (src, k)
         system.vel_rev = bool(case.get("vel_rev0", False))
         path = Path(maxlen=case["maxlen"])
         import copy
         ens = _mk_ens(case["left"], case["right"])
         ens_before = copy.deepcopy(ens)
         start_order = system.order
+        obs["src_name"] = os.path.basename(src)
         try:
             ok, status = eng.propagate(path, ens, system, reverse=bool(case["rev"]))
             obs["success"] = bool(ok)
@@ -905,6 +944,7 @@ def run_plugin(case):
         obs["calls"] = [list(c) for c in eng.calls]
         obs["sys_vel_rev"] = bool(system.vel_rev)
         obs["sys_cfg_idx"] = system.config[1]
+        obs["sys_cfg_file"] = os.path.basename(system.config[0])
         obs["path"] = [{"idx": pp.config[1], "order": [float(x) for x in pp.order], "vel_rev": bool(pp.vel_rev)}
                        for pp in path.phasepoints]
     except Exception:  # noqa: BLE001
@@ -1067,6 +1107,8 @@ def _run_gmx_in(case, work):
             fh.write(g96_text(natoms, d0, L0, v0))
         with open(os.path.join(work, "fake_nframes.txt"), "w") as fh:
             fh.write(str(len(frames) + 1))
+        with open(os.path.join(work, "fake_rc.json"), "w") as fh:
+            json.dump({"grompp": int(case.get("grompp_rc", 0)), "energy": int(case.get("energy_rc", 0))}, fh)
         nfr = len(frames)
         sched = [dict(file=bool(f), bytes={"trr": cuts[min(int(v), nfr)]}, alive=bool(a), src=[int(bool(f)), int(v), 0, int(bool(a))])
                  for (f, v, _v2, a) in case["sched"]]
@@ -1128,9 +1170,11 @@ def _run_gmx_in(case, work):
         seen = os.path.join(work, "fake_seen.txt")
         obs["seen"] = open(seen).read() if os.path.exists(seen) else ""
         obs["start_seen"] = None
+        obs["start_file"] = None
         for ln in obs["seen"].split("\n"):
             if ln.startswith("conf=") and os.path.exists(ln[5:]):
                 obs["start_seen"] = list(parse_g96(ln[5:]))
+                obs["start_file"] = os.path.basename(ln[5:])
         obs["seen"] = obs["seen"].split("\n")[0]
     except ctl.HarnessHang as e:
         obs["harness_error"] = str(e)
@@ -1278,14 +1322,25 @@ def check_ext_property(ctx, case, obs):
             elif len(path) != len(frames):
                 ctx.fail(f"C12:{eng}:silently-truncated", f"{len(frames)} frames written, {len(path)} returned", rep)
     else:
-        healthy = case["code"] == 0 and any(w[0] for w in obs.get("realised", []))
+        healthy = (case["code"] == 0 and any(w[0] for w in obs.get("realised", []))
+                   and not case.get("grompp_rc") and not case.get("energy_rc"))
         if healthy:
             ctx.fail(f"C12:{eng}:raised-on-healthy-run", f"{obs.get('exc')}", rep)
+    if case.get("grompp_rc") or case.get("energy_rc"):
+        # an engine failure (here: a tool of the MD package) raises instead of returning a path
+        if obs["raised"] == "ok":
+            ctx.fail(f"C12:{eng}:tool-failure-not-raised", f"grompp rc {case.get('grompp_rc', 0)}, energy rc "
+                                                           f"{case.get('energy_rc', 0)}: propagate returned normally", rep)
+        if case.get("grompp_rc") and obs.get("proc") != "never-started":
+            ctx.fail(f"C12:{eng}:started-after-failed-grompp", f"mdrun state after propagate: {obs.get('proc')}", rep)
     _check_purity(ctx, eng, obs, rep)
     # (c) program stopped when propagate returns/raises
     if obs.get("proc") == "orphan":
         ctx.fail(f"C12:{eng}:program-left-running", "the external program was still running after propagate ended", rep)
     # (d) the program was started from the given phase point (velocities reversed iff reverse != vel_rev)
+    if obs.get("ext_restart"):
+        ctx.fail(f"C12:{eng}:start-config-wrong", "the generated run.inp still has an &EXT_RESTART section: CP2K starts from the "
+                                                  "restart file named there, not from the phase point", rep)
     st = case.get("start", frames[0] if frames else None)
     if st is not None and obs.get("start_seen") is not None:
         flip = -1.0 if (rev != bool(case.get("vel_rev0", False))) else 1.0
@@ -1528,10 +1583,39 @@ def gen_gmx_cases(ctx):
         c2["prelude"] = one(rng.randint(1, 6))
         c2["prelude"]["natoms"] = c2["natoms"]
         cases.append(c2)
+    # the one-shot tools around mdrun fail (`gmx grompp` before, `gmx energy` after): execute_command must raise, and
+    # mdrun must not be started (grompp) / must have been stopped (energy)
+    for j, (grc, erc) in enumerate(((1, 0), (-11, 0), (0, 1), (0, 2), (0, -9), (3, 1)) if ctx.quick else
+                                   ((1, 0), (-11, 0), (0, 1), (0, 2), (0, -9), (3, 1), (2, 0), (0, 255), (-15, 0), (0, -15))):
+        fr = [(1.0, 16.0, 1.0), (2.0, 18.0, -2.0), (9.0, 32.0, 3.0)][:1 + j % 3]
+        cases.append(dict(engine="gromacs", frames=fr, sched=sched_from_times(0, [1] * (len(fr) - 1), 2 + j % 2), code=0,
+                          maxlen=4, left=0.5, right=8.0, rev=j % 2, vel_rev0=bool(j % 3 == 0), sub=1, natoms=40, double=False,
+                          grompp_rc=grc, energy_rc=erc, tag="gmx-tool-fail"))
     for c in cases:
         if c.get("start") is None:
             c.pop("start", None)
     return cases
+
+
+def pt_tokens(file, idx, vel_rev):
+    return f"{file} {'-' if idx is None else idx} {int(bool(vel_rev))}"
+
+
+def propgmx_line(case, realised):
+    """whole GROMACS propagate from the PHASE POINT (start.g96, index 0 or None, vel_rev0) — Model/EnginePropagate.lean"""
+    frames = case["frames"]
+    start = case.get("start", frames[0] if frames else (1.0, 16.0, 0.0))
+    ds = sorted({f[0] for f in frames} | {start[0]})
+    Ls = sorted({f[1] for f in frames} | {start[1]})
+    fr = [(ds.index(d), Ls.index(L), sc(vx)) for (d, L, vx) in frames]
+    sfr = [(ds.index(start[0]), Ls.index(start[1]), sc(start[2]))]
+    tab = [(ci, bi, sc(pbc(d, L))) for ci, d in enumerate(ds) for bi, L in enumerate(Ls)]
+    ws = " ".join([str(len(realised))] + [f"{a} {b} {c} {d}" for a, b, c, d in realised])
+    line = (f"propgmx rep {sc(case['left'])} {sc(case['right'])} {case['maxlen']} {int(bool(case['rev']))} {case['code']} "
+            f"{gmx_need0(case)} 400 {int(case.get('grompp_rc', 0))} {int(case.get('energy_rc', 0))} "
+            f"{pt_tokens('u1', None if case.get('cfg_none') else 0, case.get('vel_rev0', False))} "
+            f"{tri(sfr)} {tri(fr)} {ws} {tri(tab)}")
+    return line, ds, Ls
 
 
 def gmx_line(case, realised, repaired=False):
@@ -1603,6 +1687,13 @@ def gen_plugin_cases(ctx):
                           script=[rng.choice(LEVELS + (0.0,)) for _ in range(n)], sub=sub,
                           maxlen=rng.randint(1, 5), left=rng.choice((0.5, 0.0)), right=8.0, rev=rng.choice((0, 1)),
                           vel_rev0=rng.choice((False, True)), start_idx=rng.choice((0, 1)), tag="plugin-sub"))
+    # the other two branches of dump_config: config = (file, None) → copy; … and the file already is the target → nothing
+    for rev in (0, 1):
+        for vr0 in (False, True):
+            for kind in ("cfg_none", "same_file"):
+                for script in ((), (2.0, 9.0), (0.25,)):
+                    cases.append(dict(engine="plugin", d0=2.0, v0=rng.choice((1.0, -2.0)), script=list(script), sub=1, maxlen=4,
+                                      left=0.5, right=8.0, rev=rev, vel_rev0=vr0, start_idx=0, tag="plugin-" + kind, **{kind: True}))
     return cases
 
 
@@ -1624,6 +1715,18 @@ def inproc_line(case):
     tab = [(i, 0, sc2(pbc(d, case["L"]))) for i, d in enumerate(ds)]
     return (f"inproc {1 if case['engine'] == 'ase' else 0} {sc2(case['left'])} {sc2(case['right'])} {case['maxlen']} "
             f"{int(bool(case['rev']))} {case['sub']} {tri(fr)} {tri(tab)}")
+
+
+def propinproc_line(case):
+    """whole propagate of ASE/TurtleMD from the PHASE POINT (start file, index 0, vel_rev0): the flip decision, the
+    file operations and the dynamics' start frame are the model's (Model/EnginePropagate.lean), not the harness's"""
+    n = case["sub"] * case["maxlen"] + 1
+    c0, v = sc2(case["d0"]), sc2(case["v0"])
+    cids = sorted({c0 + sg * i * (abs(v) // 2) for i in range(n + 1) for sg in (1, -1) if c0 + sg * i * (abs(v) // 2) >= 0})
+    tab = [(c, 0, sc2(pbc(c / S2, case["L"]))) for c in cids]
+    return (f"propinproc {1 if case['engine'] == 'ase' else 0} {sc2(case['left'])} {sc2(case['right'])} {case['maxlen']} "
+            f"{int(bool(case['rev']))} {case['sub']} {pt_tokens('u1', 0, case.get('vel_rev0', False))} "
+            f"{tri([(c0, 0, v)])} {tri(tab)}")
 
 
 def plugin_line(case):
@@ -1690,6 +1793,183 @@ def check_inproc_property(ctx, case, obs):
             ctx.fail(f"C12:{eng}:backward-does-not-retrace", f"forward {fw}, backward from its last frame {bw}", rep)
 
 
+def parse_setup(txt):
+    """'<n> call… initialConf sysfile sysidx velRev backward' of the driver → dict"""
+    t = txt.split()
+    n = int(t[0])
+    calls = [tuple(int(x) if x.isdigit() else x for x in c.split(":")) for c in t[1:1 + n]]
+    rest = t[1 + n:]
+    return {"calls": calls, "initial": rest[0], "sys_file": rest[1], "sys_idx": None if rest[2] == "-" else int(rest[2]),
+            "sys_vel_rev": rest[3] == "1", "backward": rest[4] == "1"}
+
+
+def compare_propgmx(ctx, case, obs, ans, ds, Ls):
+    ctx.hit("propgmx")
+    if ans.startswith("err") or ans == "bad-op":
+        ctx.disagree({"engine": "gromacs", "op": "propgmx", "case": case}, "a result", ans)
+        return
+    su_txt, mid, res_txt = ans.split(" | ", 2)
+    su = parse_setup(su_txt)
+    started, st = mid.split()
+    m = parse_model(res_txt)
+    cv = code_view(obs)
+    mv = model_view(m)
+    code = {**cv, "started": obs.get("proc") != "never-started"}
+    model = {**mv, "started": started == "1"}
+    if started == "1":
+        code["ticks"], model["ticks"] = obs["ticks"], m["ticks"]
+        code["stopped"], model["stopped"] = obs["proc"] == "stopped", m["dead"]
+    # the configuration mdrun was started from = the frame the wrapper left at (initial_conf, 0)
+    if obs.get("start_seen") is not None and st != "-":
+        ci, bi, v = (int(x) for x in st.split(","))
+        got = obs["start_seen"]
+        code["start"] = [got[0], got[1] if got[1] is not None else Ls[bi], got[2]] if isinstance(got, list) else got
+        model["start"] = [ds[ci], Ls[bi], v / S]
+    # which initial configuration grompp was given: r_… iff the wrapper reversed the velocities
+    if obs.get("start_file") is not None:
+        code["reversed_file"], model["reversed_file"] = obs["start_file"].startswith("r_"), su["initial"] == "rconf"
+    if code != model:
+        ctx.disagree({"engine": "gromacs", "op": "propgmx", "case": case, "realised": obs["realised"]}, code, model)
+
+
+def run_base_ops(ctx, have_model):
+    """EngineBase.execute_command / calculate_order / snapshot_to_system on the real methods (plug-in engine object)
+    against execCommand / calcOrder / snapshotToSystem, plus the direct predicates"""
+    import importlib.util  # noqa: F401
+    import numpy as np
+    from infretis.classes.system import System
+    work = _newdir()
+    try:
+        eng = _plugin_cls()([], 1)
+        eng.exe_dir = work
+        # ---- execute_command: exit codes and deaths by signal
+        rcs = [0, 1, 2, 3, 127, 255, -9, -15, -2]
+        lines, code = [], []
+        for rc in rcs:
+            for cwd in (work,):        # cwd=None would write stdout.txt into the harness's own cwd: not exercised
+                here = cwd or os.getcwd()
+                for n in ("stdout.txt", "stderr.txt"):
+                    if cwd is None and os.path.exists(os.path.join(here, n)):
+                        break
+                else:
+                    sh = f"'echo out; echo err >&2; exit {rc}'" if rc >= 0 else f"'echo out; kill -{-rc} $$'"
+                    try:
+                        ret = eng.execute_command(["/bin/sh", "-c", sh], cwd=cwd)
+                        o = (0, ret)
+                    except RuntimeError as e:
+                        o = (1, None)
+                        if f"Return code: {rc}" not in str(e):
+                            ctx.fail("C12:execute-command:wrong-return-code-reported", f"rc {rc}: {str(e)[-80:]}", {"rc": rc})
+                    except Exception as e:  # noqa: BLE001
+                        o = (err_kind(e), None)
+                    kept = [os.path.exists(os.path.join(here, n)) for n in ("stdout.txt", "stderr.txt")]
+                    for n in ("stdout.txt", "stderr.txt"):
+                        if os.path.exists(os.path.join(here, n)):
+                            os.remove(os.path.join(here, n))
+                    ctx.count(1, engine="execute_command")
+                    rep_ = {"fn": "execute_command", "rc": rc, "cwd": cwd is not None}
+                    # the property: a failing program raises; only success returns
+                    if rc != 0 and o[0] != 1:
+                        ctx.fail("C12:execute-command:nonzero-exit-not-raised", f"return code {rc}: returned {o}", rep_)
+                    if rc == 0 and o != (0, 0):
+                        ctx.fail("C12:execute-command:raised-on-success", f"{o}", rep_)
+                    if kept[0] != kept[1]:
+                        ctx.fail("C12:execute-command:log-files-differ", f"{kept}", rep_)
+                    lines.append(f"exec {rc}")
+                    code.append(f"{o[0]} {'-' if o[1] is None else o[1]} {int(kept[0])}")
+        if have_model and lines:
+            for ln, a, cd in zip(lines, ctx.driver(lines), code):
+                if a != cd:
+                    ctx.disagree({"fn": "execute_command", "line": ln}, cd, a)
+        # ---- calculate_order: argument route vs file route, vel_rev sign, missing order function
+        class Probe:
+            def calculate(self, system):
+                return [1000.0 * (10 * system.pos[1][0] + system.box[0]) + system.vel[1][0]]
+        src = os.path.join(work, "co.txt")
+        with open(src, "w") as fh:
+            fh.write("3.0 -2.0\n")
+        # the plug-in engine's _read_configuration: file frame = (d=3, box=1024 → id 7 below, v=-2)
+        lines, code = [], []
+        for hasfn in (1, 0):
+            for vr in (False, True):
+                for x in (None, 5):
+                    for v in (None, 4, 0):
+                        for b in (None, 6):
+                            system = System()
+                            system.config = (src, 0)
+                            system.vel_rev = vr
+                            eng.order_function = Probe() if hasfn else None
+                            kw = {}
+                            if x is not None:
+                                kw["xyz"] = np.array([[0.0, 0, 0], [float(x), 0, 0]])
+                            if v is not None:
+                                kw["vel"] = np.array([[0.0, 0, 0], [float(v), 0, 0]])
+                            if b is not None:
+                                kw["box"] = np.array([float(b)] * 3)
+                            try:
+                                r = eng.calculate_order(system, **kw)
+                                # box id: 1024 (file) ↔ 7, 6 ↔ 6
+                                val = r[0]
+                                cd = str(int(val - 1000.0 * 1024 + 1000 * 7)) if abs(val) > 500000 else str(int(val))
+                            except Exception as e:  # noqa: BLE001
+                                cd = err_kind(e)
+                            ctx.count(1, engine="calculate_order")
+                            tab = [(5, 6, 56), (5, 7, 57), (3, 6, 36), (3, 7, 37)]
+                            lines.append(f"calcorder {hasfn} {int(vr)} {'-' if x is None else x} {'-' if v is None else v} "
+                                         f"{'-' if b is None else b} 3 7 -2 {tri(tab)}")
+                            code.append(cd)
+                            if hasfn:
+                                # direct predicate: the order function sees (-1)^vel_rev times the velocity of the frame used
+                                full = x is not None and v is not None and b is not None
+                                vv = (v if full else -2) * (-1 if vr else 1)
+                                xx, bb = (x, b) if full else (3, 7)
+                                if cd != str(1000 * (10 * xx + bb) + vv):
+                                    ctx.fail("C12:calculate-order:wrong-frame-or-direction",
+                                             f"given xyz={x} vel={v} box={b} vel_rev={vr}: order function saw {cd}",
+                                             {"fn": "calculate_order", "x": x, "v": v, "b": b, "vel_rev": vr})
+        eng.order_function = None
+        if have_model:
+            for ln, a, cd in zip(lines, ctx.driver(lines), code):
+                if a != cd:
+                    ctx.disagree({"fn": "calculate_order", "line": ln}, cd, a)
+        # ---- snapshot_to_system
+        lines, code = [], []
+        for present in itertools.product((0, 1), repeat=7):
+            for vr in (False, True):
+                system = System()
+                system.order = [5.0]
+                system.pos = np.zeros((2, 3))
+                system.vel = np.zeros((2, 3))
+                system.vpot, system.ekin = 2.0, 3.0
+                system.config = ("f4", 6)
+                system.vel_rev = vr
+                sn = {}
+                keys = ("order", "pos", "vel", "vpot", "ekin", "config", "vel_rev")
+                vals = ([8.0], np.ones((2, 3)), np.ones((2, 3)), 11.0, 12.0, ("f9", None), not vr)
+                for q, kk, vv in zip(present, keys, vals):
+                    if q:
+                        sn[kk] = vv
+                before = (system.order, system.vpot, system.ekin, system.config, system.vel_rev)
+                r = eng.snapshot_to_system(system, sn)
+                ctx.count(1, engine="snapshot_to_system")
+                if (system.order, system.vpot, system.ekin, system.config, system.vel_rev) != before or r is system:
+                    ctx.fail("C12:snapshot-to-system:input-modified", "the system handed in was changed / returned", {"present": present})
+
+                def oi(z):
+                    return "-" if z is None else str(int(z[0] if isinstance(z, list) else z))
+                code.append(f"{oi(r.order)} {int(r.pos is not None)} {int(r.vel is not None)} {oi(r.vpot)} {oi(r.ekin)} "
+                            f"{r.config[0][1:]} {'-' if r.config[1] is None else r.config[1]} {int(r.vel_rev)}")
+                lines.append(f"snap 5 1 1 2 3 4 6 {int(vr)} {'8' if present[0] else '-'} {present[1]} {present[2]} "
+                             f"{'11' if present[3] else '-'} {'12' if present[4] else '-'} {present[5]} 9 - "
+                             f"{int(not vr) if present[6] else '-'}")
+        if have_model:
+            for ln, a, cd in zip(lines, ctx.driver(lines), code):
+                if a != cd:
+                    ctx.disagree({"fn": "snapshot_to_system", "line": ln}, cd, a)
+    finally:
+        shutil.rmtree(work, ignore_errors=True)
+
+
 def _infra(case, obs):
     """an infrastructure problem (fake-program handshake hang, temp dir, …) is never a verdict: exit 2"""
     print(f"[C12] INFRASTRUCTURE ERROR (exit 2, not a violation) on case {case}: {obs['harness_error']}", flush=True)
@@ -1736,6 +2016,9 @@ def _run(ctx):
                 lines.append(ext_line(case, obs["realised"], variant))
                 where.append((k, variant))
     answers = ctx.driver(lines) if (have_model and lines) else []
+    cp_idx = [k for k, c in enumerate(cases) if c["engine"] == "cp2k"]
+    cp_ans = dict(zip(cp_idx, ctx.driver(["cp2ktraj" + ext_line(cases[k], obs_all[k]["realised"], "-")[3:] for k in cp_idx]))) \
+        if (have_model and cp_idx) else {}
     by_case = {}
     for (k, variant), a in zip(where, answers):
         by_case.setdefault(k, {})[variant] = parse_model(a)
@@ -1774,6 +2057,20 @@ def _run(ctx):
                             # the model says another frame's box was used although the direct predicate did not notice
                             ctx.fail(SIG_BOX, "behaviour equals the as-is model (box_trajectory.pop()) and differs from the "
                                               "repaired one on a varying-box schedule", {"case": case, "realised": obs["realised"]})
+        if k in cp_ans:
+            # CP2K's own trajectory file against cp2kTrajFile of the model's path: coordinates, velocity AS STORED, and the
+            # box read before the run in every frame
+            frames = case["frames"]
+            start = case.get("start", frames[0] if frames else (1.0, 16.0, 0.0))
+            ds = sorted({f[0] for f in frames})
+            Ls = sorted({f[1] for f in frames} | {start[1]})
+            want = []
+            for tok in cp_ans[k].split()[1:]:
+                ci, bi, v = (int(x) for x in tok.split(","))
+                want.append([ds[ci], Ls[bi], v / S])
+            got = [[d, L if L is not None else start[1], vx] for d, L, vx in obs.get("trajfile", [])]
+            if got != want:
+                ctx.disagree({"engine": "cp2k", "op": "cp2ktraj", "case": case, "realised": obs["realised"]}, got, want)
         if k % 997 == 0 or case["tag"] == "witness":
             ctx.sample({"engine": eng, "tag": case["tag"], "frames": case["frames"], "realised_schedule": obs["realised"],
                         "maxlen": case["maxlen"], "code": case["code"], "result": code_view(obs)})
@@ -1790,6 +2087,8 @@ def _run(ctx):
             _infra(case, obs)
     gans = ctx.driver([gmx_line(c, o["realised"]) for c, o in zip(gcases, gobs)]) if (have_model and gcases) else []
     gans_rep = ctx.driver([gmx_line(c, o["realised"], True) for c, o in zip(gcases, gobs)]) if (have_model and gcases) else []
+    gprop = [propgmx_line(c, o["realised"]) for c, o in zip(gcases, gobs)]
+    gans_prop = ctx.driver([ln for ln, _, _ in gprop]) if (have_model and gcases) else []
     gmx_consistent = {"asis", "rep"}
     for k, (case, obs) in enumerate(zip(gcases, gobs)):
         ctx.count(1, engine="gromacs")
@@ -1800,6 +2099,9 @@ def _run(ctx):
                           case["code"], case["natoms"], case["double"]))
         guarded(ctx, "gromacs", case, check_ext_property, ctx, case, obs)
         if have_model:
+            # whole propagate from the phase point (wrapper + grompp + runner + energy): Model/EnginePropagate.lean
+            compare_propgmx(ctx, case, obs, gans_prop[k], gprop[k][1], gprop[k][2])
+        if have_model and not (case.get("grompp_rc") or case.get("energy_rc")):
             cv = code_view(obs)
             agree = []
             views = {}
@@ -1834,6 +2136,7 @@ def _run(ctx):
             ilines.append(inproc_line(case))
             iwhere.append(k)
     ians = dict(zip(iwhere, ctx.driver(ilines))) if (have_model and ilines) else {}
+    ipans = dict(zip(iwhere, ctx.driver([propinproc_line(icases[k]) for k in iwhere]))) if (have_model and ilines) else {}
     for k, (case, obs) in enumerate(zip(icases, iobs)):
         eng = case["engine"]
         ctx.count(1, engine=eng)
@@ -1851,6 +2154,36 @@ def _run(ctx):
                   "status": m["status"]}
             if cv != mv:
                 ctx.disagree({"engine": eng, "case": case}, cv, mv)
+            # the composed model: propagate wrapper + loop, from the phase point
+            ctx.hit("propinproc")
+            pa = ipans[k]
+            if " | " not in pa:
+                ctx.disagree({"engine": eng, "op": "propinproc", "case": case}, cv, pa)
+            else:
+                su_txt, res_txt = pa.split(" | ", 1)
+                su = parse_setup(su_txt)
+                pm = parse_model(res_txt)
+
+                def fname(b):
+                    if b.startswith("start."):
+                        return "u1"
+                    return ("rconf" if b.startswith("r_") else "conf") if "_conf." in b else b
+                ccalls = []
+                for c in obs.get("calls", []):
+                    if c[0] == "_extract_frame":
+                        ccalls.append(("extract", fname(c[1]), c[2], fname(c[3])))
+                    elif c[0] == "_copyfile":
+                        ccalls.append(("copy", fname(c[1]), fname(c[2])))
+                    else:
+                        ccalls.append(("reverse", fname(c[1]), fname(c[2])))
+                sa = obs.get("sys_after", [None, None, None])
+                # after propagate the system still points at (initial_conf, 0) with vel_rev = reverse
+                cv2 = {**cv, "calls": ccalls, "sys": [fname(sa[0] or ""), sa[1], sa[2]], "file": obs["path"][0]["file"].split("_traj")[1][0] if obs["path"] else None}
+                mv2 = {"raised": pm["raised"], "ents": [(i, o, v) for (i, _c, _b, v, o) in pm["ents"]], "success": pm["success"],
+                       "status": pm["status"], "calls": su["calls"], "sys": [su["sys_file"], su["sys_idx"], su["sys_vel_rev"]],
+                       "file": ("B" if su["backward"] else "F") if obs["path"] else None}
+                if cv2 != mv2:
+                    ctx.disagree({"engine": eng, "op": "propinproc", "case": case}, cv2, mv2)
             # the k-th frame is the state after k·subcycles steps: file must hold exactly the recorded frames
             if obs.get("nframes_file") != len(obs["path"]):
                 ctx.fail(f"C12:{eng}:file-and-path-differ", f"{obs.get('nframes_file')} frames in the file, {len(obs['path'])} in the path", rep)
@@ -1874,6 +2207,10 @@ def _run(ctx):
     pcases = gen_plugin_cases(ctx)
     pobs = [run_any(c) for c in pcases]
     pans = ctx.driver([plugin_line(c) for c in pcases]) if have_model else []
+    psetup = ctx.driver([f"propsetup {int(bool(c['rev']))} "
+                         + pt_tokens("conf" if c.get("same_file") else "u0",
+                                     None if (c.get("cfg_none") or c.get("same_file")) else c.get("start_idx", 0),
+                                     c.get("vel_rev0", False)) for c in pcases]) if have_model else []
     for k, (case, obs) in enumerate(zip(pcases, pobs)):
         if "harness_error" in obs:
             _infra(case, obs)
@@ -1887,7 +2224,8 @@ def _run(ctx):
         calls = obs.get("calls", [])
         want_rev = bool(case["rev"]) != bool(case.get("vel_rev0", False))
         start = [c for c in calls if c[0] == "start"]
-        okp = (len(start) == 1 and calls[0][:3] == ["extract", "source.txt", case.get("start_idx", 0)]
+        idx_case = not (case.get("cfg_none") or case.get("same_file"))
+        okp = (len(start) == 1 and (not idx_case or calls[0][:3] == ["extract", "source.txt", case.get("start_idx", 0)])
                and (any(c[0] == "reverse" for c in calls) == want_rev)
                and start[0][1] == case["d0"] and start[0][2] == (-case["v0"] if want_rev else case["v0"])
                and start[0][3] == bool(case["rev"]) and start[0][5] == 0 and obs["sys_vel_rev"] == bool(case["rev"]))
@@ -1898,6 +2236,29 @@ def _run(ctx):
         if any(e["order"][1] != sign * veff for e in obs.get("path", [])):
             ctx.fail("C12:plugin:velocity-direction", f"{[e['order'] for e in obs['path']]} vs file velocity {veff}", rep)
         if have_model:
+            # EngineBase.propagate against propagateSetup: the file operations, in order, and the system handed on
+            ctx.hit(f"propsetup:{case['tag']}")
+            su = parse_setup(psetup[k])
+
+            def fname(b):
+                if b == obs.get("src_name") and not case.get("same_file"):
+                    return "u0"
+                if b.endswith("_conf.txt"):
+                    return "rconf" if b.startswith("r_") else "conf"
+                return b
+            ccalls = []
+            for c in calls:
+                if c[0] == "extract":
+                    ccalls.append(("extract", fname(c[1]), c[2], "conf"))
+                elif c[0] == "copy":
+                    ccalls.append(("copy", fname(c[1]), fname(c[2])))
+                elif c[0] == "reverse":
+                    ccalls.append(("reverse", fname(c[1]), "rconf"))
+            cview = {"calls": ccalls, "initial": fname(start[0][4]) if start else None, "sys_file": fname(obs.get("sys_cfg_file", "")),
+                     "sys_idx": obs.get("sys_cfg_idx"), "sys_vel_rev": obs.get("sys_vel_rev")}
+            mview = {q: su[q] for q in cview}
+            if cview != mview:
+                ctx.disagree({"engine": "plugin", "op": "propsetup", "case": case}, cview, mview)
             a = pans[k]
             if a.startswith("err"):
                 mv = (a,)
@@ -1942,6 +2303,7 @@ def _run(ctx):
     else:
         ctx.count(len(alines), engine="add_to_path")
     _ = lv
+    run_base_ops(ctx, have_model)
     ctx.exhaustive = False
     ctx.assumptions += [
         "order values, interfaces and velocities are dyadic (multiples of 1/4 or 1/8): float comparisons are exact",
@@ -1956,6 +2318,15 @@ def _run(ctx):
         "GROMACS: tied through fake gmx (grompp/energy stubs, mdrun streaming TRR, both precisions) at whole-frame "
         "granularity; torn TRR frames are C13's subject; the .edr content is a stub (energies are not checked)",
         "TurtleMDEngine is run with a seed-tolerant velocity-Verlet integrator class (the engine passes seed= to every integrator)",
+        "extension pass: the composed models (propagateInproc / propagateGmx, Model/EnginePropagate.lean) are fed the PHASE POINT "
+        "(start file, index or None, vel_rev) and `reverse`; the driver's dynamics for ASE/TurtleMD is exact free flight "
+        "(`flightStep`: cid += vel/2 on the 1/8 grid); the file operations of the wrapper are observed by wrapping "
+        "_extract_frame/_copyfile/_reverse_velocities on the real engine objects",
+        "gmx grompp / gmx energy failures are imposed on the fake tools through fake_rc.json (exit codes and deaths by signal); "
+        "execute_command is run on /bin/sh (cwd given; the cwd=None branch is not exercised)",
+        "LAMMPS/CP2K composed propagate (propagateExt) is a theorem-level composition only: the tie compares the loop (extRun) "
+        "and, separately, the start configuration the fake program was given (start_seen); CP2K's own trajectory file is "
+        "compared with cp2kTrajFile frame by frame",
     ]
 
 
